@@ -471,6 +471,8 @@ func CheckC11(run *Run) {
 	c11Clients(run, s, reqs, rng)
 	// ---- clients behind framing headers that lie (c11_framing.go) -----------------------------------
 	c11Framing(run, s, reqs, rng)
+	// ---- clients given hostile RESPONSE headers (c11_resphdr.go): Go (direct + wire) and TS -----------
+	c11RespHeaders(run, s, reqs, rand.New(rand.NewSource(run.Seed+1112)))
 	// ---- rejections whose error text quotes a long token (c11_tokens.go) ------------------------------
 	c11Tokens(run, s, tokReq)
 	run.Extra["targets"] = len(targets)
